@@ -1,6 +1,7 @@
 package chain
 
 import (
+	"errors"
 	"fmt"
 	"os"
 	"sort"
@@ -346,4 +347,28 @@ func TestMainnetPresetShort(t *testing.T) {
 	cfg.ID = "mainnet@1,1,2,2"
 	q := DefaultPolicy()
 	runChain(t, cfg, 64, "mixed", 3, 3*32, &q)
+}
+
+func TestRejectedErrorCarriesTheBlock(t *testing.T) {
+	c, err := NewChain(Fast(0, 0, 0, 0), 32, "uniform", 3)
+	if err != nil {
+		t.Fatal(err)
+	}
+	// an Edit that breaks the block: the real code must refuse it and the error must carry the input
+	_, err = c.NextSlot(&SlotOpts{Propose: true, Edit: func(b *SignedBlock, _ common.BeaconState, _ *common.EpochsContext) error {
+		*b.Body().Payload.Timestamp++
+		return nil
+	}})
+	var re *RejectedError
+	if !errors.As(err, &re) || !errors.Is(err, ErrNotAccepted) || c.LastRejected == nil || re.Step.Block == nil || re.Step.Pre == nil {
+		t.Fatalf("expected a RejectedError with the block, got %v", err)
+	}
+	t.Log(err)
+	// the chain itself did not move and goes on normally
+	if c.Slot() != 0 {
+		t.Fatalf("chain advanced to %d on a refused block", c.Slot())
+	}
+	if _, err := c.NextSlot(nil); err != nil || c.LastRejected != nil {
+		t.Fatalf("next slot after a refusal: %v", err)
+	}
 }
